@@ -141,6 +141,30 @@ Theorem C16_ncc_affine_invariant_eps0 :
 Proof. exact ncc_affine_eps0. Qed.
 Print Assumptions C16_ncc_affine_invariant_eps0.
 
+(* ncc_loss with a mask (weighted correlation, weights = the mask broadcast to the image): symmetric, samples where
+   the mask is zero are ignored entirely (both images may change there arbitrarily), value on identical inputs,
+   a mask of ones is no mask, range [0, 1] by the weighted Cauchy-Schwarz inequality *)
+Theorem C16_ncc_masked :
+  forall (K : fld), is_field K -> forall (eps : K) (s t w : list K),
+  ncc_w eps s t w = ncc_w eps t s w /\
+  (forall s' t', same_on_mask w s s' t t' -> ncc_w eps s t w = ncc_w eps s' t' w) /\
+  (let b := vsum (vmul (vmul (wcenter s w) w) (wcenter s w)) in b * b + eps <> 0 -> ncc_w eps s s w = eps / (b * b + eps)) /\
+  (length s = length t -> ncc_w eps s t (repeat 1 (length s)) = ncc_one eps s t).
+Proof.
+  intros K Kf eps s t w.
+  exact (conj (ncc_w_symmetric K Kf eps s t w) (conj (fun s' t' H => ncc_mask_zero_ignored K Kf eps w s s' t t' H)
+        (conj (ncc_w_identical K Kf eps s w) (ncc_w_ones K Kf eps s t)))).
+Qed.
+Print Assumptions C16_ncc_masked.
+
+Theorem C16_ncc_masked_range :
+  forall (eps : RF) (s t w : list RF),
+  nonneg w -> (0 <= eps)%R ->
+  (0 < vsum (vmul (vmul (wcenter s w) w) (wcenter s w)) * vsum (vmul (vmul (wcenter t w) w) (wcenter t w)) + eps)%R ->
+  (0 <= ncc_w eps s t w <= 1)%R.
+Proof. exact ncc_w_range. Qed.
+Print Assumptions C16_ncc_masked_range.
+
 (* ================= 3. windowed correlation (any window system nb: any D, kernel size, shape) ========== *)
 Theorem C16_lcc_range :
   forall (eps : RF) nb (s t : list RF), (0 < eps)%R -> Forall (fun v => (0 <= v <= 1)%R) (lcc_none nb eps s t).
@@ -389,12 +413,28 @@ Theorem C16_gen_ncc :
   forall (K : fld), is_field K -> forall (x0 x1 x2 x3 y0 y1 y2 y3 eps : K),
   gen_ncc eps [x0; x1; x2; x3] [y0; y1; y2; y3] = [ncc_one eps [x0; x1; x2; x3] [y0; y1; y2; y3]] /\
   Some (gen_ncc_batch_mean eps [x0; x1; x2; x3] [y0; y1; y2; y3])
-  = b_ncc RMean eps [[[x0; x1]]; [[x2; x3]]] [[[y0; y1]]; [[y2; y3]]].
+  = b_ncc RMean eps [[[x0; x1]]; [[x2; x3]]] [[[y0; y1]]; [[y2; y3]]] [1; 2]%nat None.
 Proof.
   intros K Kf x0 x1 x2 x3 y0 y1 y2 y3 eps.
   exact (conj (gen_ncc_ok K Kf x0 x1 x2 x3 y0 y1 y2 y3 eps) (gen_ncc_batch_ok K Kf x0 x1 x2 x3 y0 y1 y2 y3 eps)).
 Qed.
 Print Assumptions C16_gen_ncc.
+
+Theorem C16_gen_ncc_masked :
+  forall (K : fld), is_field K ->
+  (forall x0 x1 x2 x3 y0 y1 y2 y3 w0 w1 w2 w3 eps : K,
+     gen_ncc_mask eps [x0; x1; x2; x3] [y0; y1; y2; y3] [w0; w1; w2; w3]
+     = [ncc_w eps [x0; x1; x2; x3] [y0; y1; y2; y3] [w0; w1; w2; w3]]) /\
+  (forall eps x0 x1 x2 x3 x4 x5 x6 x7 y0 y1 y2 y3 y4 y5 y6 y7 w0 w1 : K,
+     Some (gen_ncc_mask_bcast eps [x0; x1; x2; x3; x4; x5; x6; x7] [y0; y1; y2; y3; y4; y5; y6; y7] [w0; w1])
+     = b_ncc RSum eps [[[x0; x1]; [x2; x3]]; [[x4; x5]; [x6; x7]]] [[[y0; y1]; [y2; y3]]; [[y4; y5]; [y6; y7]]] [1; 2]%nat
+         (Some ([[[w0; w1]]], [1; 2]%nat))).
+Proof.
+  intros K Kf. split.
+  - intros x0 x1 x2 x3 y0 y1 y2 y3 w0 w1 w2 w3 eps. exact (gen_ncc_mask_ok K Kf x0 x1 x2 x3 y0 y1 y2 y3 w0 w1 w2 w3 eps).
+  - exact (gen_ncc_mask_bcast_ok K Kf).
+Qed.
+Print Assumptions C16_gen_ncc_masked.
 
 Theorem C16_gen_windowed :
   forall (K : fld), is_field K ->
